@@ -805,6 +805,117 @@ def emit_disambig(d) -> str:
             f"Definition src_dis_skip_noninit : bool := {_coq_bool(d['skip_noninit'])}.\n")
 
 
+# ------------------------------------------------------- in-place edits (C11)
+
+def _strings_of(fn):
+    out = []
+    for n in ast.walk(fn):
+        if isinstance(n, ast.Constant) and isinstance(n.value, str):
+            out.append(n.value)
+    return out
+
+
+def _edits_only_after_copy(fn, var, file):
+    """Inside fn, is every in-place edit of `var` (var.pop(..), del var[..], var[..] = .., var.update/clear/setdefault/popitem)
+    preceded, on its path, by `var = var.copy()`?  Returns (edits_found, all_guarded)."""
+    import re
+    edits = [0]
+    ok = [True]
+
+    def is_copy_assign(st):
+        return (isinstance(st, ast.Assign) and len(st.targets) == 1 and isinstance(st.targets[0], ast.Name) and st.targets[0].id == var
+                and _src(st.value) == f"{var}.copy()")
+
+    def mutates(node):
+        for n in ast.walk(node):
+            if isinstance(n, ast.Call) and isinstance(n.func, ast.Attribute) and isinstance(n.func.value, ast.Name) and n.func.value.id == var \
+                    and n.func.attr in ("pop", "update", "clear", "setdefault", "popitem", "__delitem__", "__setitem__"):
+                return True
+            if isinstance(n, ast.Delete) and any(isinstance(t, ast.Subscript) and isinstance(t.value, ast.Name) and t.value.id == var for t in n.targets):
+                return True
+            if isinstance(n, (ast.Assign, ast.AugAssign)):
+                tg = n.targets if isinstance(n, ast.Assign) else [n.target]
+                if any(isinstance(t, ast.Subscript) and isinstance(t.value, ast.Name) and t.value.id == var for t in tg):
+                    return True
+        return False
+
+    def walk(stmts, copied):
+        for st in stmts:
+            if is_copy_assign(st):
+                copied = True
+                continue
+            if isinstance(st, ast.If):
+                if mutates(st.test):
+                    edits[0] += 1
+                    ok[0] = ok[0] and copied
+                walk(st.body, copied)
+                walk(st.orelse, copied)
+                continue
+            if isinstance(st, (ast.FunctionDef, ast.For, ast.While, ast.With, ast.Try)):
+                raise T1Unrecognised(file, st.lineno, "unexpected compound statement in a tagged-union structure hook")
+            if mutates(st):
+                edits[0] += 1
+                ok[0] = ok[0] and copied
+        return copied
+    walk(_strip_doc(fn.body), False)
+    return edits[0], ok[0]
+
+
+def translate_alias(repo: Path):
+    import re
+    # strategies/_unions.py: the structure hooks of configure_tagged_union edit `val` only after copying it
+    file = "src/cattrs/strategies/_unions.py"
+    mod = ast.parse((repo / file).read_text())
+    ctu = [n for n in mod.body if isinstance(n, ast.FunctionDef) and n.name == "configure_tagged_union"]
+    if len(ctu) != 1:
+        raise T1Unrecognised(file, 0, "configure_tagged_union not found")
+    hooks = [n for n in ast.walk(ctu[0]) if isinstance(n, ast.FunctionDef) and n.name == "structure_tagged_union"]
+    if len(hooks) != 4:
+        raise T1Unrecognised(file, ctu[0].lineno, f"expected 4 structure_tagged_union variants, found {len(hooks)}")
+    tagged_ok, total_edits = True, 0
+    for h in hooks:
+        first = h.args.args[0].arg
+        if first != "val":
+            raise T1Unrecognised(file, h.lineno, "first parameter of structure_tagged_union is not `val`")
+        n_edits, guarded = _edits_only_after_copy(h, "val", file)
+        total_edits += n_edits
+        tagged_ok = tagged_ok and guarded
+    # the unstructure wrapper writes the tag into the dict the member hook returned (fresh), never into its argument
+    un = [n for n in ast.walk(ctu[0]) if isinstance(n, ast.FunctionDef) and n.name == "unstructure_tagged_union"]
+    if len(un) != 1:
+        raise T1Unrecognised(file, ctu[0].lineno, "unstructure_tagged_union not found")
+    n_un, _ = _edits_only_after_copy(un[0], un[0].args.args[0].arg, file)
+    tagged_un_ok = n_un == 0
+    # gen/typeddicts.py: the generated hooks edit `res`, which starts as a copy of the argument
+    file2 = "src/cattrs/gen/typeddicts.py"
+    mod2 = ast.parse((repo / file2).read_text())
+
+    def fn(name):
+        f = [n for n in mod2.body if isinstance(n, ast.FunctionDef) and n.name == name]
+        if len(f) != 1:
+            raise T1Unrecognised(file2, 0, f"{name} not found")
+        return f[0]
+
+    def copies(fnode, argname):
+        strs = _strings_of(fnode)
+        has_copy = any(re.search(r"\bres = %s\.copy\(\)" % argname, x) for x in strs)
+        edits_arg = any(re.search(r"(\bdel %s\[|\b%s\[[^\]]*\]\s*=[^=]|\b%s\.(pop|update|clear|setdefault|popitem)\()" % (argname, argname, argname), x) for x in strs)
+        starts_from_arg = any(re.search(r"\bres = %s\s*$" % argname, x) for x in strs)
+        if not has_copy and not starts_from_arg:
+            raise T1Unrecognised(file2, fnode.lineno, f"cannot find how `res` is initialised from `{argname}`")
+        return has_copy and not edits_arg and not starts_from_arg
+    return {"tagged_structure_copies_before_edit": tagged_ok, "tagged_structure_edit_sites": total_edits, "tagged_unstructure_leaves_argument": tagged_un_ok,
+            "td_structure_copies": copies(fn("make_dict_structure_fn"), "o"), "td_unstructure_copies": copies(fn("make_dict_unstructure_fn"), "instance")}
+
+
+def emit_alias(a) -> str:
+    return ("(* GENERATED by harness/t1_translate.py from src/cattrs/strategies/_unions.py and src/cattrs/gen/typeddicts.py -- do not edit *)\n"
+            f"Definition src_tagged_copy_first : bool := {_coq_bool(a['tagged_structure_copies_before_edit'])}.\n"
+            f"Definition src_tagged_un_leaves_arg : bool := {_coq_bool(a['tagged_unstructure_leaves_argument'])}.\n"
+            f"Definition src_td_struct_copy_first : bool := {_coq_bool(a['td_structure_copies'])}.\n"
+            f"Definition src_td_unstruct_copy_first : bool := {_coq_bool(a['td_unstructure_copies'])}.\n")
+
+
 def main():
     repo, outdir = Path(sys.argv[1]), Path(sys.argv[2])
     outdir.mkdir(parents=True, exist_ok=True)
@@ -873,6 +984,15 @@ def main():
         summary["ok"] = False
         summary["errors"].append(str(e))
         summary["sections"]["disambig"] = False
+    try:
+        al = translate_alias(repo)
+        write("AliasSrc.v", emit_alias(al))
+        summary["alias"] = al
+        summary["sections"]["alias"] = True
+    except T1Unrecognised as e:
+        summary["ok"] = False
+        summary["errors"].append(str(e))
+        summary["sections"]["alias"] = False
     print(json.dumps(summary))
     return 0 if summary["ok"] else 3
 
